@@ -72,3 +72,7 @@ def c18_unvisited_slot(kind, slot) -> bool:
 
 def c18_misordered_kind(kind) -> bool:
     return ENABLED and kind in C18_MISORDERED
+
+
+def c07_excluded(t, v, exp) -> bool:
+    return False
